@@ -24,6 +24,16 @@ add("C11", "fault_enumeration",
     "Trusted: hook placement; a signal 'at a point' is delivered by the process to itself followed by a 15 ms settle so the runtime's signal goroutine has cancelled the context; competing holders are represented by their control files.",
     "fault injection (signals/errors/timeouts at enumerated points) over generated programs (rapid) with a directory invariant", "DESIGN.md §3 C11")
 
+add("C01", "fault_enumeration",
+    "Generated procedures (DML, CREATE TABLE, ALTER, COMMIT/ROLLBACK, nested IF/WHILE, temporary tables) with a terminator at every kind of position (normal end, failing statement, EXIT, EXIT n, trailing ROLLBACK, SIGINT/SIGTERM at statement boundaries and at lib/file / commit points) are run by the real binary; the executed trace is read from marker output. Oracle: the final directory is byte-identical to the one produced by a reference program containing only the statements of committed transactions (all executed statements after a normal end); files never named keep bytes, inode and mtime; exit codes reflect the ending. An in-process variant follows Execute with the CLI's deferred AutoRollback and compares every temporary table with the reference.",
+    "Trusted: csvq executes a single data-changing statement the same way with and without surrounding uncommitted work (statement semantics themselves are C05's business); marker PRINTs reflect executed statements; signal-at-point delivery as in C11.",
+    "property-based testing (rapid) with termination-point enumeration and a metamorphic/differential prefix oracle", "DESIGN.md §3 C01")
+
+add("C16", "exploration",
+    "Generated histories of DECLARE/OPEN/FETCH (all positions, offsets incl. negative and out of range)/CLOSE/DISPOSE/WHILE IN/status expressions on two cursors, interleaved with INSERT/UPDATE/DELETE/COMMIT/ROLLBACK on the underlying table, run statement by statement next to a model {declared, open, snapshot at OPEN, admissible pointer set, fetched}; every fetched row, COUNT, IS OPEN, IS IN RANGE and documented error class is compared after each step.",
+    "Trusted: the cursor model written from the manual; the snapshot is obtained by running the cursor's query as a plain SELECT right before/after OPEN; open outcomes (variables after an out-of-range fetch, CLOSE of a closed cursor) are accepted either way.",
+    "stateful property-based testing (rapid, generated operation histories) against a reference model", "DESIGN.md §3 C16")
+
 NOT_YET = {}
 
 def main():
